@@ -156,6 +156,16 @@ func ZZ_C19_recover() {
 		}
 	}
 	zzCheckContents(db, all, -1)
+	zzCheckFileNums(mem, db)
+}
+
+// the recovered DB is an ordinary one: the next file number it hands out is
+// above every file that exists (a reused number would overwrite a live table)
+func zzCheckFileNums(stor storage.Storage, db *DB) {
+	fds, _ := stor.List(storage.TypeAll)
+	for _, fd := range fds {
+		vpAssert(fd.Num < db.s.nextFileNum(), "next-file-number-above-every-existing-file")
+	}
 }
 
 func ZZ_C19_witness() {
@@ -168,6 +178,13 @@ func ZZ_C19_witness() {
 // nothing is invented.
 func ZZ_C19_dmg() {
 	mem, o, tables, all := zzRecoverSetup(zzDmgTables, false)
+	// strictness settings that do not ask Recover to drop damaged tables
+	switch vpChoose(3) {
+	case 1:
+		o.Strict = opt.StrictReader
+	case 2:
+		o.Strict = opt.StrictReader | opt.StrictBlockChecksum
+	}
 	t0 := tables[0]
 	dataEnd := t0.ends[len(t0.ends)-1]
 	d := vpChoose(dataEnd)
@@ -200,4 +217,5 @@ func ZZ_C19_dmg() {
 	}
 	// table 0's entries come first in `all`
 	zzCheckContents(db, all, blk)
+	zzCheckFileNums(mem, db)
 }
